@@ -23,7 +23,7 @@ REQUIRED = [
     "backend.generic", "backend.sse2", "backend.avx2", "backend.auto", "alphabet.protein", "reuse.increasing",
     "reuse.decreasing", "pseudocount.dict", "pseudocount.dict_with_wildcard_key", "background.wildcard_key", "background.nonuniform", "background.zero_entries", "base.non2",
     "pvalue.meme", "pvalue.tfmpvalue", "pvalue.rc_after_cached_distribution", "pvalue.wildcard_weighted_background", "load.path", "load.bytesio",
-    "load.short_reads", "errors.invalid_symbol_in_long_text", "scan.lone_hit_in_last_row_of_odd_block", "scan.several_default_blocks", "score.tabulated_pvalue", "load.jaspar", "load.jaspar16", "load.transfac", "load.uniprobe", "scan.hits>0",
+    "load.short_reads", "errors.invalid_symbol_in_long_text", "scan.lone_hit_in_last_row_of_odd_block", "scan.several_default_blocks", "score.tabulated_pvalue", "pvalue.far_below_minimum", "load.jaspar", "load.jaspar16", "load.transfac", "load.uniprobe", "scan.hits>0",
 ]
 
 lightmotif = None
@@ -473,6 +473,18 @@ def family_pvalue(rep, case, rng):
             lo2, hi2 = ex.sf(s + (w + 1) * 0.1), ex.sf(s - (w + 2) * 0.1)
             if p2 < lo2 - 1e-7 or p2 > hi2 + 1e-7:
                 rep.violate("c17.pvalue.tfmpvalue", case, "%s: pvalue(%r, 'tfmpvalue') = %r outside [%r, %r]" % (label, s, p2, lo2, hi2), wit)
+                return False
+        # scores far below everything the table covers (a window containing N scores -inf): the
+        # p-value is the total probability of the finite-scoring words
+        total = ex.sf(ex.scores[0] - 1.0)
+        for s_far in (ex.scores[0] - 100.0, ex.scores[0] - 1.0e4, -1.0e30, float("-inf")):
+            ok, p = call(rep, case, "pvalue(far below)", lambda: p_obj.pvalue(s_far), wit)
+            rep.cover("pvalue.far_below_minimum")
+            if not ok:
+                rep.violate("c17.pvalue.error", case, "%s: pvalue(%r) raised %r" % (label, s_far, p), wit)
+                return False
+            if abs(p - total) > 1e-7:
+                rep.violate("c17.pvalue.meme", case, "%s: pvalue(%r) = %r, the probability of scoring at least that is %r" % (label, s_far, p, total), wit)
                 return False
         # score(p) for p EQUAL to tabulated tails (attainable p-values such as pvalue(s), which are
         # not representable in single precision under these backgrounds), just above / below them,
